@@ -1422,10 +1422,11 @@ def run_universes(ctx, mod, unis, pid=PID):
         raise MachineryError(f"{len(bad_all)} disagreements between the as-coded model / evaluator and the real code (not verdicts about the property):\n" + "\n".join(lines))
 
 
-def as_coded_counterexample(ctx, uni, invariant, pid=PID):
-    """The model with the AS-CODED constant must violate `invariant`: TLC exhibits the defect on the
-    model (the verdict about the real code comes from the replay, not from this run)."""
-    coefval, res = run_tlc(uni, ctx.seed, ascoded=True, invariants=(invariant,), dump=False, workers=1, small=True)
+def as_coded_counterexample(ctx, uni, invariant, pid=PID, ascoded=True, offset_by="physical"):
+    """The model with the AS-CODED constant (or with the offsets of FormSplitter.argument advanced
+    by the reference value size) must violate `invariant`: TLC exhibits the defect on the model
+    (the verdict about the real code comes from the replay, not from this run)."""
+    coefval, res = run_tlc(uni, ctx.seed, ascoded=ascoded, invariants=(invariant,), dump=False, workers=1, small=True, offset_by=offset_by)
     ctx.add_tlc(res)
     if res.outcome != "invariant" or res.violated != invariant:
         raise tlc_failure(uni, res)
@@ -1434,7 +1435,8 @@ def as_coded_counterexample(ctx, uni, invariant, pid=PID):
     prog = [dict(op=n["op"], args=n["args"], mi=n["mi"]) for n in st.get("store", [])[uni.ninit:]]
     text = w.text({"prog": prog, "ints": st.get("form", [])}) if prog else "?"
     ctx.cov.setdefault("as_coded_model_counterexamples", []).append({"universe": uni.name, "invariant": invariant, "operator": st.get("res"), "form": text})
-    print(f"  as-coded model violates {invariant} on {st.get('res')}({text}) [{uni.name}]", flush=True)
+    which = "as-coded model" if ascoded else f"model with OffsetBy = {offset_by}"
+    print(f"  {which} violates {invariant} on {st.get('res')}({text}) [{uni.name}]", flush=True)
 
 
 def run(ctx, args):
